@@ -16,6 +16,8 @@
 #include <Eigen/Sparse>
 #include <Spectra/DavidsonSymEigsSolver.h>
 #include <Spectra/contrib/PartialSVDSolver.h>
+#include <Spectra/MatOp/SparseGenRealShiftSolve.h>
+#include <Spectra/MatOp/SparseGenComplexShiftSolve.h>
 #include <memory>
 using namespace sh;
 typedef std::complex<double> CD;
@@ -336,7 +338,10 @@ static void run_case(int cs, const Args& args, Out& out) {
     { std::ofstream lc(args.out + "/lastcase.txt"); lc << "{\"harness\":\"c06\",\"seed\":" << args.seed << ",\"case\":" << cs << ",\"tier\":\"" << args.tier << "\"}\n"; }
     Ctx c{&out, args.seed, cs, args.tier, "", "", false};
     const int nmax = args.thorough() ? 20 : 11;
-    const int cls = cs % 13; const bool gen = (cls >= 3 && cls <= 5);
+    // cases beyond the base range: the LIBRARY's own shift-solve wrappers as the user's operator object (classes 13..15); the base
+    // cases keep their numbering, so every recorded replay still names the same case
+    const int nbase = args.thorough() ? 10400 : 1430;
+    const int cls = cs < nbase ? cs % 13 : 13 + (cs - nbase) % 3; const bool gen = (cls >= 3 && cls <= 5) || cls == 14 || cls == 15;
     int n = r.range(gen ? 5 : 4, nmax); int nev = r.range(1, std::max(1, std::min(4, n - (gen ? 3 : 2)))); int lo = nev + (gen ? 2 : 1);
     int ncv = r.range(lo, std::min(n, lo + 5));
     const int kind = r.range(0, 7); static const double scales[5] = {1.0, 1.0, 1e-6, 1e5, 37.0}; const double scale = scales[r.below(5)];
@@ -373,6 +378,31 @@ static void run_case(int cs, const Args& args, Out& out) {
         F.shift_header = "opshift 1 " + str(dbits(sr)) + " " + str(dbits(si)); op.install(sr + 1.0, si); st.sr = sr + 1.0; st.si = si;
         F.make = [&]() { using S = Spectra::GenEigsComplexShiftSolver<ShiftLoopOp>; auto sp = std::make_shared<S>(op, nev, ncv, sr, si); Handle h = wrap<S, CD>(sp, n, nev, false); real_init(h, sp.get()); return h; };
         F.probe = [&]() { LogGuard g(&log); op.saving = true; Vec x = probe_vec(n, 0), y(n); op.perform_op(x.data(), y.data()); op.saving = false; return matbits(y); };
+        experiment(F, r, c); break; }
+    case 13: { Mat A = gen_sym(r, n, kind == 4 ? 0 : kind, scale); double sigma = 0.37 * scale * r.sym() * 3; Spectra::DenseSymShiftSolve<double> op(A); F.cls = "SymEigsShiftSolver<DenseSymShiftSolve>"; F.can_throw = false;
+        op.set_shift(sigma * 0.5 + 0.123 * scale);   // something else is installed before the solver is constructed
+        F.make = [&]() { using S = Spectra::SymEigsShiftSolver<Spectra::DenseSymShiftSolve<double>>; auto sp = std::make_shared<S>(op, nev, ncv, sigma); Handle h = wrap<S, double>(sp, n, nev, false); real_init(h, sp.get()); return h; };
+        F.probe = [&]() { Vec x = probe_vec(n, 0), y(n); op.perform_op(x.data(), y.data()); return matbits(y); };
+        experiment(F, r, c); break; }
+    case 14: { Mat A = gen_general(r, n, (kind % 7 == 5 || kind % 7 == 3) ? 0 : kind % 7, scale); double sigma = 1.7 * scale * (1 + r.unit()); F.can_throw = false;
+        const bool sparse = r.coin(); Eigen::SparseMatrix<double> As = A.sparseView(); Spectra::DenseGenRealShiftSolve<double> opd(A); Spectra::SparseGenRealShiftSolve<double> ops(As);
+        if (sparse) ops.set_shift(-sigma); else opd.set_shift(-sigma);
+        if (sparse) { F.cls = "GenEigsRealShiftSolver<SparseGenRealShiftSolve>";
+            F.make = [&]() { using S = Spectra::GenEigsRealShiftSolver<Spectra::SparseGenRealShiftSolve<double>>; auto sp = std::make_shared<S>(ops, nev, ncv, sigma); Handle h = wrap<S, CD>(sp, n, nev, false); real_init(h, sp.get()); return h; };
+            F.probe = [&]() { Vec x = probe_vec(n, 0), y(n); ops.perform_op(x.data(), y.data()); return matbits(y); }; }
+        else { F.cls = "GenEigsRealShiftSolver<DenseGenRealShiftSolve>";
+            F.make = [&]() { using S = Spectra::GenEigsRealShiftSolver<Spectra::DenseGenRealShiftSolve<double>>; auto sp = std::make_shared<S>(opd, nev, ncv, sigma); Handle h = wrap<S, CD>(sp, n, nev, false); real_init(h, sp.get()); return h; };
+            F.probe = [&]() { Vec x = probe_vec(n, 0), y(n); opd.perform_op(x.data(), y.data()); return matbits(y); }; }
+        experiment(F, r, c); break; }
+    case 15: { Mat A = gen_general(r, n, (kind % 7 == 5 || kind % 7 == 3) ? 0 : kind % 7, scale); double sr = 0.9 * scale * r.sym(), si = 0.4 * scale * (0.2 + r.unit()); F.can_throw = false;
+        const bool sparse = r.coin(); Eigen::SparseMatrix<double> As = A.sparseView(); Spectra::DenseGenComplexShiftSolve<double> opd(A); Spectra::SparseGenComplexShiftSolve<double> ops(As);
+        if (sparse) ops.set_shift(sr + scale, si); else opd.set_shift(sr + scale, si);
+        if (sparse) { F.cls = "GenEigsComplexShiftSolver<SparseGenComplexShiftSolve>";
+            F.make = [&]() { using S = Spectra::GenEigsComplexShiftSolver<Spectra::SparseGenComplexShiftSolve<double>>; auto sp = std::make_shared<S>(ops, nev, ncv, sr, si); Handle h = wrap<S, CD>(sp, n, nev, false); real_init(h, sp.get()); return h; };
+            F.probe = [&]() { Vec x = probe_vec(n, 0), y(n); ops.perform_op(x.data(), y.data()); return matbits(y); }; }
+        else { F.cls = "GenEigsComplexShiftSolver<DenseGenComplexShiftSolve>";
+            F.make = [&]() { using S = Spectra::GenEigsComplexShiftSolver<Spectra::DenseGenComplexShiftSolve<double>>; auto sp = std::make_shared<S>(opd, nev, ncv, sr, si); Handle h = wrap<S, CD>(sp, n, nev, false); real_init(h, sp.get()); return h; };
+            F.probe = [&]() { Vec x = probe_vec(n, 0), y(n); opd.perform_op(x.data(), y.data()); return matbits(y); }; }
         experiment(F, r, c); break; }
     case 11: { if (n < 5) n = 5; nev = std::max(1, std::min(nev, (n - 2) / 3)); F.n = n; F.nev = nev; Mat A = gen_sym(r, n, kind, scale); for (int i = 0; i < n; i++) A(i, i) += scale * (3.0 * i + 1.0); CntSymProd op(A, log); F.cls = "DavidsonSymEigsSolver"; F.has_init = false; F.davidson = true;
         F.make = [&]() { using S = Spectra::DavidsonSymEigsSolver<CntSymProd>; auto sp = std::make_shared<S>(op, nev); Handle h; h.keep = sp; S* s = sp.get();
@@ -427,7 +457,7 @@ int main(int argc, char** argv) {
         long s = num("seed"), k = num("case"); if (s >= 0) args.seed = (uint64_t) s; if (k >= 0) only = (int) k;
         size_t p = t.find("\"tier\""); if (p != std::string::npos) { p = t.find('"', t.find(':', p)); size_t q = t.find('"', p + 1); if (p != std::string::npos && q != std::string::npos) args.tier = t.substr(p + 1, q - p - 1); }
     }
-    const int ncases = args.thorough() ? 10400 : 1430;
+    const int ncases = args.thorough() ? 10400 + 900 : 1430 + 150;     // base cases + library-wrapper cases (classes 13..15)
     for (int cs = 0; cs < ncases; cs++) {
         if (only >= 0 && cs != only) continue;
         try { run_case(cs, args, out); }
